@@ -3,7 +3,7 @@
    ground trie of the session. *)
 From GV Require Import Lib.Tactics Lib.Bytes Rlp.Codec Trie.Hex Trie.Node Trie.Ops Trie.Hash.
 From GV Require Import Trie.OpsProofs Trie.Canon Trie.Proof Trie.ProofProofs.
-From GV Require Import Trie.Commit Trie.CommitProofs Trie.CommitTracer Trie.X.CommitReads Trie.X.CommitSim Trie.X.CommitSimDel Trie.X.CommitHist Trie.X.CommitExact Trie.X.CommitEvents Trie.X.CommitTrace Trie.X.CommitPv Trie.X.CommitInv3.
+From GV Require Import Trie.Commit Trie.CommitProofs Trie.CommitTracer Trie.CommitReads Trie.CommitSim Trie.CommitSimDel Trie.CommitHist Trie.CommitExact Trie.CommitEvents Trie.CommitTrace Trie.CommitPv Trie.CommitInv3.
 Local Open Scope N_scope.
 
 Section Mono.
